@@ -1952,6 +1952,7 @@ type FnInfo struct {
 	File        string      `json:"file"`
 	Start       int         `json:"start_line"`
 	End         int         `json:"end_line"`
+	Callers     []string    `json:"callers,omitempty"` // only for functions with alias-escape entries
 }
 
 func coqStr(s string) string { return "\"" + strings.ReplaceAll(s, "\"", "\"\"") + "\"" }
@@ -1968,6 +1969,20 @@ func (s *Scanner) output(outJSON, outV string) {
 			fi.Start, fi.End = s.fset.Position(f.Body.Pos()).Line, s.fset.Position(f.Body.End()).Line
 			if f.Type != nil && f.Type.Pos().IsValid() {
 				fi.Start = s.fset.Position(f.Type.Pos()).Line
+			}
+		}
+		for _, a := range f.Accesses {
+			if a.Alias {
+				seen := map[string]bool{}
+				for _, g := range s.fns {
+					for _, c := range g.Calls {
+						if c.Callee == f && !seen[g.ID] && len(fi.Callers) < 40 {
+							seen[g.ID] = true
+							fi.Callers = append(fi.Callers, g.ID)
+						}
+					}
+				}
+				break
 			}
 		}
 		fninfo = append(fninfo, fi)
